@@ -78,6 +78,8 @@ pub fn s_gap(_run: &mut Run, a: &[&str]) -> (String, Fails) {
             if n.media_ssrc != ssrc { f.push(("gap:media-ssrc".into(), format!("{}", n.media_ssrc))); } Some(n.lost_packets.clone()) }
             Some(_) => { f.push(("gap:not-a-nack".into(), String::new())); None } None => None };
         // what the documentation promises
+        // (SSRC 0 is the handler's "not yet known" sentinel: the stream identity is learnt from the first
+        //  packet and on every detected switch, and a remembered 0 never counts as a switch)
         let fresh = match cur { Some((c, _)) => c != 0 && c != ssrc, None => false };
         if cur.is_none() || fresh {
             if lost.is_some() { f.push(("gap:nack-on-first-or-switched-stream".into(), format!("{t}"))); }
@@ -93,10 +95,10 @@ pub fn s_gap(_run: &mut Run, a: &[&str]) -> (String, Fails) {
                 let want: Vec<u16> = (0..n).map(|k| seq.wrapping_sub((n - k) as u16)).collect();
                 if lost.as_ref() != Some(&want) { f.push(("gap:lost-list-not-exact".into(), format!("last {last} seq {seq}: {:?}", lost))); }
                 for x in want { if !nacked.contains(&x) { nacked.push(x); } }
-                cur = Some((ssrc, seq));
+                cur = Some((cur.unwrap().0, seq));
             } else {
                 if lost.is_some() { f.push(("gap:spurious-nack".into(), format!("last {last} seq {seq}"))); }
-                if d < 32768 { cur = Some((ssrc, seq)); }
+                if d < 32768 { cur = Some((cur.unwrap().0, seq)); }
             }
         }
         out.push(match lost { None => "n".to_string(), Some(l) => format!("k{}", if l.is_empty() { "-".into() } else { l.iter().map(|x| x.to_string()).collect::<Vec<_>>().join(";") }) });
